@@ -38,6 +38,8 @@ STD_AXIOMS = {
     "JMeq.JMeq_eq",
 }
 
+NUMERIC = {"C01", "C02", "C03", "C04", "C05", "C06", "C08", "C09", "C10", "C14", "C18"}
+
 FORBIDDEN = re.compile(
     r"\b(Admitted|admit|Axiom|Axioms|Parameter|Parameters|Conjecture|Admit Obligations|"
     r"bypass_check|Unset Guard Checking|Unset Positivity Checking|Unset Universe Checking|type-in-type)\b"
@@ -404,6 +406,13 @@ def proof_gate(rep: Report, pid: str) -> dict:
     props = check_props(pid)
     if not props["ok"]:
         rep.extra["props_error"] = props["output_tail"]
+    # numeric properties evaluate the opsQ instance while their theorems are about opsR: the bridge
+    # (Props/Transfer.v, built by make) must have been checked by the kernel in this build
+    if pid in NUMERIC and not (COQ / "Props" / "Transfer.vo").exists():
+        props["ok"] = False
+        props["output_tail"] = "Props/Transfer.vo is missing: the Q/R transfer theorems no longer check"
+        rep.extra["props_error"] = props["output_tail"]
+    props["bridge"] = "Props/Transfer.v (kernel-checked in this build)" if pid in NUMERIC else "n/a (discrete model)"
     return props
 
 
